@@ -376,6 +376,9 @@ TRACE_CFG = """CONSTANTS
     Design = "any"
     Policy = "any"
     RenameAt = "closed"
+    Memo = FALSE
+    MaxClear = 2
+    MaxExtra = 2
     MaxCrash = 4
     Fifo = FALSE
     EmitOn = FALSE
